@@ -13,4 +13,5 @@ open Pcore.Syntax
 #print axioms C05_callable_unit_dropped
 #print axioms C05_callable_leading_tuple
 #print axioms C05_typed_value_roundtrip
-#print axioms C05_runtime_pattern_without_name
+#print axioms C05_runtime_pattern_without_name_before_fix
+#print axioms C05_runtime_pattern_without_name_repaired
